@@ -201,7 +201,7 @@ class Sensors:
         # Spectral noise density
         self.gyr_noise = kwargs.get('gyr_noise', NOISE_SIGMA)
         self.acc_noise = kwargs.get('acc_noise', ACC_NOISE_STD_DEVIATION)
-        self.mag_noise = kwargs.get('mag_noise', MAG_NOISE_STD_DEVIATION)
+        self.mag_noise = kwargs.get('mag_noise')     # None: default noise level, set when the data is generated
 
         # Orientations as quaternions
         if quaternions is None:
@@ -261,7 +261,7 @@ class Sensors:
             self.magnetometers_enu[i] = rotations[i].T @ self.reference_magnetic_vector_enu
 
         # Add noise
-        if self.mag_noise < np.ptp(self.magnetometers):
+        if self.mag_noise is None:
             self.mag_noise = np.linalg.norm(REFERENCE_MAGNETIC_VECTOR) * 0.005
         self.gyroscopes += GENERATOR.standard_normal((self.num_samples, 3)) * self.gyr_noise
         self.accelerometers += GENERATOR.standard_normal((self.num_samples, 3)) * self.acc_noise
